@@ -17,7 +17,7 @@ for id in args:
     s = T.replace('/tmp/wt_@ID@', wt).replace('@ID@', id).replace('@TITLE@', p['title']).replace('@STATEMENT@', p['statement']).replace('@QTEXT@', p['quantifier']['text'])
     if wave:
         tried = []
-        for d in sorted(glob.glob(f'/verif/seeded/{id}-*') + glob.glob(f'/verif/seeded/_obsolete/{id}-*')):
+        for d in sorted(glob.glob(f'/verif/seeded/{id}-*') + glob.glob(f'/verif/seeded/_obsolete/{id}-*') + glob.glob(f'/verif/seeded/_unconfirmed/{id}-*')):
             try:
                 m = json.load(open(d + '/meta.json'))
             except Exception:
